@@ -25,11 +25,11 @@ CHECKS = {
         note=NOTE + 'A custom linear name colliding with an existing dimension may be refused; only returned values are checked then.', ref='DESIGN.md §5 C03'),
     'C04': dict(
         technique=RM + 'brute-force oracle monitor at the API boundary (GEOS intersects over the model polygon array) + reach monitor',
-        text='Tens of thousands of query points (interiors, exact shared vertices where up to 6 cells tie, shared edges, hole interiors, just outside, far outside) are looked up through get_index_for_point / select_point and compared with the minimum linear index among all model polygons intersecting the point.',
+        text='Tens of thousands of query points (interiors, exact shared vertices where up to 6 cells tie, shared edges, hole interiors, just outside, far outside) are looked up through get_index_for_point / select_point and compared with the minimum linear index among all model polygons intersecting the point. Also: CF 1-D grids whose stored cell bounds overlap their neighbours (a point on the edge of a lower-indexed cell inside a higher-indexed one).',
         note=NOTE + 'For CF grids without stored bounds the brute force runs over the (1e-9-verified) emsarray polygon array, because boundary points are undecidable from a model that is only 1e-9-close.', ref='DESIGN.md §5 C04'),
     'C05': dict(
         technique=RM + 'reference-model monitor with self-identifying values over select_index(es) / select_point(s) / extract_points / extract_dataframe incl. expected-error events + reach monitor',
-        text='Index lists (repeats, shuffled, every grid kind, custom dimension names) and point lists (hits, boundary hits, misses) under policies error / drop / fill are selected through the real API and compared value-for-value, row-for-row with the model; absence of other-kind and geometry variables is asserted; NonIntersectingPoints must name exactly the misses. Also: selector_for_index, tables with gappy / reversed / offset / RangeIndex-slice indexes, documented defaults relied on, a variable added after the first selection.',
+        text='Index lists (repeats, shuffled, every grid kind, custom dimension names) and point lists (hits, boundary hits, misses) under policies error / drop / fill are selected through the real API and compared value-for-value, row-for-row with the model; absence of other-kind and geometry variables is asserted; NonIntersectingPoints must name exactly the misses. Also: selector_for_index, tables with gappy / reversed / offset / RangeIndex-slice indexes, documented defaults relied on, a variable added after the first selection. Also: per-cell time stamp / duration variables under fill (NaT for misses), datasets beyond 180 degrees east, selections keep the stored data type.',
         note=NOTE + 'Nothing asserted for variables without a grid dimension, for drop/fill with every point missing, or for caller-chosen dimension names that collide with dataset dimensions.', ref='DESIGN.md §5 C05'),
     'C06': dict(
         technique=RM + 'reference-model monitor on polygons / mask / bounds / geometry + warning capture + in-situ contract on make_polygons_with_holes + reach monitor (both bounds branches of each topology class must be entered)',
@@ -49,7 +49,7 @@ CHECKS = {
         note=NOTE + 'CF grids without stored bounds: class, centres, reopening only. Datasets carry a time axis.', ref='DESIGN.md §5 C09'),
     'C10': dict(
         technique=RM + 'one abstract mesh / many encodings: reference-model monitor on Mesh2DTopology tables vs a pure-python mesh model + reach monitor on every make_*_array',
-        text='Each random mesh (3..8-sided convex/concave faces) is encoded in a covering sample (quick) or the full 1152-encoding product (thorough) of start_index x fill x orientation x supplied-table subsets x edge-dimension declaration x coordinate storage; normalised face-node, supplied tables (used as given, permuted edge order) and derived tables are compared with the model.',
+        text='Each random mesh (3..8-sided convex/concave faces) is encoded in a covering sample (quick) or the full 1152-encoding product (thorough) of start_index x fill x orientation x supplied-table subsets x edge-dimension declaration x coordinate storage; normalised face-node, supplied tables (used as given, permuted edge order) and derived tables are compared with the model. Also: fill values just past the index range of the table itself.',
         note=NOTE + 'Transposed tables come with the *_dimension attribute UGRID requires; cross-numbering checks only between tables that share a numbering.', ref='DESIGN.md §5 C10'),
     'C14': dict(
         technique=RM + 'reference-model monitor on triangulate_dataset with exact rational arithmetic on an integer-lattice face family (count, membership, containment, pairwise interior overlap, area sum) + reach monitor',
@@ -61,7 +61,7 @@ CHECKS = {
         note=NOTE + 'Open known finding text-format-6dp-rounding (GeoJSON and WKT round to 6 decimals) is reported as KNOWN-FINDING by a per-feature predicate; any other coordinate difference is a violation. Shapefile rings compared modulo start/direction (format prescribes winding).', ref='DESIGN.md §5 C15'),
     'C18': dict(
         technique=RM + 'reference-model monitor on Transect (segments, points, transect_dataset, prepared data) with 1-D interval arithmetic along the path, metric-free monotonicity, and the documented metric recomputed with cartopy/pyproj only; mechanism classifier for the known shared-edge double count + reach monitor',
-        text='Thousands of simple polylines (through, inside, starting outside, zig-zag across holes, along shared and border edges, re-entering, missing) over generated grids and meshes; per segment: inside its cell and on the path, consistent linear/native index and polygon, start <= end, sorted; union of segments == path inside the model; reported distances monotone in path position and equal to the recomputed geodesic metric; lengths conserved; prepared data columns hold the ids of the segment cells at every depth. Also: Transect without a depth argument (smallest depth coordinate, layer interfaces listed first), stored / made-up depth bounds of the transect dataset.',
+        text='Thousands of simple polylines (through, inside, starting outside, zig-zag across holes, along shared and border edges, re-entering, missing) over generated grids and meshes; per segment: inside its cell and on the path, consistent linear/native index and polygon, start <= end, sorted; union of segments == path inside the model; reported distances monotone in path position and equal to the recomputed geodesic metric; lengths conserved; prepared data columns hold the ids of the segment cells at every depth. Also: Transect without a depth argument (smallest depth coordinate, layer interfaces listed first), stored / made-up depth bounds of the transect dataset. Also: prepared variables that carry a positive attribute of their own.',
         note=NOTE + 'cfunits is replaced by a stand-in (axis labels only; the real one needs the absent udunits2 library). Distances checked against the metric emsarray documents (geodesic through cartopy PlateCarree->geodetic conversion), tolerance 1e-6 relative + 1 mm. Open known finding shared-edge-double-count.', ref='DESIGN.md §5 C18'),
     'C19': dict(
         technique=RM + 'reference-model monitor on matplotlib artists (PolyCollection paths/array/clim, Quiver X/Y/U/V, animation frames) under the Agg backend with self-identifying values + expected-error events + reach monitor',
@@ -81,15 +81,15 @@ CHECKS = {
         note=NOTE + 'Coordinates without attribute avoid 0 and mixed signs so the documented majority-sign guess is unambiguous.', ref='DESIGN.md §5 C13'),
     'C16': dict(
         technique=RM + 'equivalence-class monitor: make_cache_key on a dataset and on constructed twins (22 invariant edits, 12 sensitive single geometry edits, netCDF round trips, fresh interpreters with different hash seeds) + mechanism classifier for the known marshal finding + reach monitor',
-        text='Same key demanded for edits of non-geometry content, rebuilt twins, reopened files and other processes; different key demanded for each single geometry edit (1 ulp, dtype, shape with same bytes, rename, attribute add/change/remove, different convention class).',
+        text='Same key demanded for edits of non-geometry content, rebuilt twins, reopened files and other processes; different key demanded for each single geometry edit (1 ulp, dtype, shape with same bytes, rename, attribute add/change/remove, different convention class). Also: key-neutral edits include one time step picked by number and added scalar / auxiliary non-geometry coordinates.',
         note=NOTE + 'Open known finding marshal-object-identity is reported as KNOWN-FINDING only when the harness fingerprint and a canonical re-serialisation of the attributes agree; sensitive edits must also change the canonical key so marshal noise cannot mask a miss.', ref='DESIGN.md §5 C16'),
     'C17': dict(
         technique=RM + 'exhaustive enumeration as workload of composed time-unit strings (true instant known by construction) under an in-situ icontract post-condition with an independent parser + file round-trip monitor (emsarray.open_dataset and raw netCDF4) + reach monitor',
-        text='(1) format_time_units_for_ems on strings composed from period x 105 UTC offsets (-12:00..+14:00 by 15 min) x 7 writing styles x 9 epochs (leap day, year/day boundaries, year < 1000): output must have the EMS form and denote the same instant for the harness parser AND for cftime; thorough enumerates all 33 255 strings; (2) ems.to_netcdf / to_netcdf_with_fixes on datasets of all conventions (with and without time axis, from memory or from disk): same convention, polygons, values, decoded instants after reopening; EMS-form units with the right instant and no invented _FillValue on disk. Also: a single time slice (scalar time coordinate), another time-like variable before the SHOC record variable, geometry used before saving.',
+        text='(1) format_time_units_for_ems on strings composed from period x 105 UTC offsets (-12:00..+14:00 by 15 min) x 7 writing styles x 9 epochs (leap day, year/day boundaries, year < 1000): output must have the EMS form and denote the same instant for the harness parser AND for cftime; thorough enumerates all 33 255 strings; (2) ems.to_netcdf / to_netcdf_with_fixes on datasets of all conventions (with and without time axis, from memory or from disk): same convention, polygons, values, decoded instants after reopening; EMS-form units with the right instant and no invented _FillValue on disk. Also: a single time slice (scalar time coordinate), another time-like variable before the SHOC record variable, geometry used before saving. Also: time coordinates with a CF bounds variable, records at fractions of the unit (doubles on disk), time units named by the caller through the encoding argument.',
         note=NOTE + 'Inputs restricted to styles that cftime itself reads as the composed instant. The exhaustive flag refers to the units grid of the thorough tier.', ref='DESIGN.md §5 C17'),
     'C20': dict(
         technique=RM + 'differential monitor CLI vs library at the file level (in-process emsarray.cli.main with captured exit status / stderr, plus a python -m emsarray subprocess sample) + composed-grammar monitor on geometry_argument / bounds_argument + expected-error events + reach monitor',
-        text='clip / extract-points / export-geometry are run on generated datasets of every convention on disk and the output files compared (variables, dims, attributes, raw values; bytes for geometry formats) with the corresponding library call; bounds strings composed from four numbers must give exactly box(a,b,c,d), composed non-bounds strings must never become a box, GeoJSON text/files must equal shape(obj); user errors must exit non-zero with a message and no output file. Also: the file read back is compared with the dataset the library call returns (not only with the file the library writes); blank coordinate cells, entirely empty records, white space around GeoJSON text, numeric _FillValue for missing coordinates.',
+        text='clip / extract-points / export-geometry are run on generated datasets of every convention on disk and the output files compared (variables, dims, attributes, raw values; bytes for geometry formats) with the corresponding library call; bounds strings composed from four numbers must give exactly box(a,b,c,d), composed non-bounds strings must never become a box, GeoJSON text/files must equal shape(obj); user errors must exit non-zero with a message and no output file. Also: the file read back is compared with the dataset the library call returns (not only with the file the library writes); blank coordinate cells, entirely empty records, white space around GeoJSON text, numeric _FillValue for missing coordinates. Also: output names that merely end in the letters of a known format must be refused; datasets whose time coordinate has a bounds variable.',
         note=NOTE + 'If the library call itself raises, only the CLI failure mode is asserted. Leading/trailing blanks and arguments starting with "-" are not asserted. Subprocess sample runs with the synchronous dask scheduler.', ref='DESIGN.md §5 C20'),
 }
 
